@@ -2,7 +2,9 @@ package main
 
 import (
 	"fmt"
+	"os"
 	"path/filepath"
+	"strings"
 	"time"
 
 	"tags.cncf.io/container-device-interface/pkg/cdi"
@@ -14,47 +16,106 @@ func init() {
 	registry["C13"] = func(r *hx.R, tier, scratch string) (*hx.Suite, error) { return genCacheSuite(r, tier, scratch, "C13") }
 }
 
+// how the cache of a layout comes to be on its directories
+var cacheCreators = []string{
+	"NewCache(WithSpecDirs(dirs), WithAutoRefresh(mode))",
+	"NewCache(WithSpecDirs(dirs), WithAutoRefresh(mode))",
+	"NewCache(WithAutoRefresh(mode), WithSpecDirs(dirs))",
+	"NewCache(WithSpecDirs(other), WithAutoRefresh(!mode), WithAutoRefresh(mode), WithSpecDirs(dirs)): the last option of a kind counts",
+	"DefaultSpecDirs = dirs; NewCache(WithAutoRefresh(mode))",
+	"the default cache: cdi.Configure(WithSpecDirs(dirs), WithAutoRefresh(mode)), refreshed by cdi.Refresh(), errors from cdi.GetErrors()",
+	"NewCache(WithSpecDirs(other), WithAutoRefresh(mode)) then Configure(WithSpecDirs(dirs))",
+}
+
+// makeCache creates (or reconfigures) a cache on dirs in one of the ways above.  Afterwards the slice handed in and the
+// slice GetSpecDirectories returns are overwritten: the cache must have its own copy.
+func makeCache(variant int, dirs []string, auto bool, elsewhere string) *cdi.Cache {
+	var c *cdi.Cache
+	switch variant {
+	case 2:
+		c, _ = cdi.NewCache(cdi.WithAutoRefresh(auto), cdi.WithSpecDirs(dirs...))
+	case 3:
+		c, _ = cdi.NewCache(cdi.WithSpecDirs(elsewhere), cdi.WithAutoRefresh(!auto), cdi.WithAutoRefresh(auto), cdi.WithSpecDirs(dirs...))
+	case 4:
+		saved := cdi.DefaultSpecDirs
+		cdi.DefaultSpecDirs = dirs
+		c, _ = cdi.NewCache(cdi.WithAutoRefresh(auto))
+		cdi.DefaultSpecDirs = saved
+	case 5:
+		_ = cdi.Configure(cdi.WithSpecDirs(dirs...), cdi.WithAutoRefresh(auto))
+		c = cdi.GetDefaultCache()
+	case 6:
+		c, _ = cdi.NewCache(cdi.WithSpecDirs(elsewhere), cdi.WithAutoRefresh(auto))
+		_ = c.Configure(cdi.WithSpecDirs(dirs...))
+	default:
+		c, _ = cdi.NewCache(cdi.WithSpecDirs(dirs...), cdi.WithAutoRefresh(auto))
+	}
+	for i := range dirs {
+		dirs[i] = "/nonexistent/overwritten-by-the-caller"
+	}
+	if c != nil {
+		got := c.GetSpecDirectories()
+		for i := range got {
+			got[i] = "/nonexistent/overwritten-by-the-caller"
+		}
+	}
+	return c
+}
+
 // genCacheSuite: directory layouts and histories of changes, each step followed by a refresh and an observation of
 // the cache through the query API.  C01: precedence and listings, manual and automatic refresh.  C13: the same with
-// the fault vocabulary (invalid / empty / dangling files, directories that are missing, files, or have a
-// non-directory ancestor) and later repairs.
+// the fault vocabulary (invalid / empty / dangling / unreadable files, directories that are missing, files, have a
+// non-directory ancestor or lack permissions) and later repairs.
 func genCacheSuite(r *hx.R, tier, scratch, prop string) (*hx.Suite, error) {
 	faults := prop == "C13"
 	s := &hx.Suite{Property: prop, Imports: []string{"Base", "SpecModel", "Cache", "Judge01"}, CaseType: "case01", Judge: "judge01", Shard: 60}
 	if faults {
-		s.Rule = "random lists of 1-4 configured directories with fault placement (invalid/empty/dangling/link-to-directory Spec files, directories missing, being a file, having a non-directory ancestor, repeated) and histories of 0-4 changes incl. repairs, each followed by Refresh(); non-trivial = at least one loadable Spec file and at least one fault present"
+		s.Rule = "random lists of 0-6 configured directories (spelled cleanly or not) with fault placement (invalid / empty / dangling / looping / over-long links, links to directories, sockets, unreadable Spec files; directories missing, being a file, having a non-directory ancestor, lacking read or search permission, repeated) and histories of 0-4 changes (write, rewrite in place, remove, rename, repairs, good directories going bad, no change) each followed by Refresh(), manual and automatic refresh, caches created in seven ways incl. the default cache; non-trivial = at least one loadable Spec file and at least one fault present"
 	} else {
-		s.Rule = "random lists of 0-4 configured directories (missing, empty, populated, repeated) with valid/invalid Specs over 2 vendors x 2 classes x 3 device names, non-Spec names and sub-directories, and histories of 0-4 changes each followed by Refresh(), in manual and automatic refresh mode; non-trivial = some device name is defined by at least two files"
+		s.Rule = "random lists of 0-6 configured directories (missing, empty, populated, repeated, spelled cleanly or not, nested) with valid/invalid Specs over 2(+1) vendors x 2(+1) classes x 3(+1) device names, Spec and non-Spec file names of usual and unusual shape, sub-directories, special files, and histories of 0-4 changes (write, rewrite in place, remove, rename within and across directories, rmdir, mkdir, no change) each followed by Refresh(), in manual and automatic refresh mode, caches created in seven ways incl. the default cache and reconfiguration; non-trivial = some device name is defined by at least two files"
 	}
 	layouts := 220
 	if tier == "thorough" {
 		layouts = 2200
 	}
-	probes := append(allPoolNames(), "vendor1.com/gpu=none", "bogus", "")
-	autoConverged, autoTotal := 0, 0
+	capsOK := faults && dacCapsWork(scratch)
+	// some directories are configured relative to the working directory: work from the scratch directory
+	if wd, err := os.Getwd(); err == nil && os.Chdir(scratch) == nil {
+		defer os.Chdir(wd)
+	}
+	elsewhere := filepath.Join(scratch, "elsewhere")
+	_ = os.MkdirAll(elsewhere, 0o755)
+	_ = os.WriteFile(filepath.Join(elsewhere, "a.json"), []byte(`{"cdiVersion":"0.3.0","kind":"vendor1.com/gpu","devices":[{"name":"dev1","containerEdits":{"env":["FP=elsewhere"]}}]}`), 0o644)
+	autoTotal := 0
+	obsDesc := func(o cacheObs) map[string]interface{} {
+		return map[string]interface{}{"devices": o.Devices, "vendors": o.Vendors, "classes": o.Classes, "error_keys": o.ErrKeys, "dir_error_keys": o.DirErrs,
+			"spec_error_paths": o.SpecErrs, "all_error_keys": o.AllErrs, "refresh_error": o.RefErr, "panic": o.Panic}
+	}
 	// a stream aimed at mode switches: an automatic-refresh cache with a missing directory (which it reports), switched to
 	// manual refresh, then the directory appears: the stale directory entry must be gone at once, the new files are seen
 	// at the next refresh
 	for k := 0; k < 6; k++ {
 		root := filepath.Join(scratch, fmt.Sprintf("m%d", k))
-		fs := genFS(r, root, false, faults, false)
-		fs.Dirs = append(fs.Dirs, &absDir{Path: filepath.Join(root, "late"), State: dirMissing})
+		opts := fsOpts{faults: faults, auto: true}
+		fs := genFS(r, root, opts)
+		fs.add(&absDir{Path: filepath.Join(root, "late"), State: dirMissing})
 		if k%2 == 1 && len(fs.Dirs) > 1 {
-			fs.Dirs[0], fs.Dirs[len(fs.Dirs)-1] = fs.Dirs[len(fs.Dirs)-1], fs.Dirs[0]
+			l := len(fs.Dirs) - 1
+			fs.Dirs[0], fs.Dirs[l] = fs.Dirs[l], fs.Dirs[0]
+			fs.Spell[0], fs.Spell[l] = fs.Spell[l], fs.Spell[0]
 		}
 		fs.materialise()
 		cache, _ := cdi.NewCache(cdi.WithSpecDirs(fs.dirList()...), cdi.WithAutoRefresh(true))
 		emit := func(auto bool, history []string) {
 			var o cacheObs
 			if auto {
-				o = settle(cache, fs.dirList(), probes, 3*time.Second, fs.missingDirs())
+				o = settle(cache, fs.dirList(), fs.probeNames(), 3*time.Second, fs.unwatchableDirs())
 			} else {
-				o = observeCache(cache, probes, true)
+				o = observeCache(cache, fs.probeNames(), true)
 			}
 			o.Auto = auto
 			s.Add(hx.Case{Term: hx.C("Case01", fs.term(), o.term()),
-				Desc: map[string]interface{}{"dirs": fs.desc(), "auto_refresh": auto, "history": append([]string{}, history...),
-					"observed": map[string]interface{}{"devices": o.Devices, "error_keys": o.ErrKeys, "dir_error_keys": o.DirErrs, "refresh_error": o.RefErr}},
+				Desc:  map[string]interface{}{"dirs": fs.desc(), "auto_refresh": auto, "history": append([]string{}, history...), "observed": obsDesc(o)},
 				Class: "mode-switch", Key: fs.term() + fmt.Sprint(auto, len(history)), Nontrivial: true})
 		}
 		hist := []string{}
@@ -65,7 +126,7 @@ func genCacheSuite(r *hx.R, tier, scratch, prop string) (*hx.Suite, error) {
 		for _, d := range fs.Dirs {
 			if d.State == dirMissing {
 				d.State = dirDir
-				d.Entries = genDirEntries(r, "late", false, faults)
+				d.Entries = genDirEntries(r, "late", fsOpts{faults: faults})
 				d.materialise()
 			}
 		}
@@ -78,71 +139,328 @@ func genCacheSuite(r *hx.R, tier, scratch, prop string) (*hx.Suite, error) {
 			_ = cache.Configure(cdi.WithAutoRefresh(false))
 		}
 	}
-	// a stream aimed at reconfiguration without a mode change: a cache in automatic mode is given another list of
-	// directories by Configure(WithSpecDirs) alone; it must answer from the new directories at once and keep following them
-	for k := 0; k < 8; k++ {
+	// a stream aimed at reconfiguration without a mode change: a cache is given another list of directories by
+	// Configure(WithSpecDirs) alone; in automatic mode it must answer from the new directories at once and keep following
+	// them (observed without any Refresh), in manual mode from the next Refresh on
+	for k := 0; k < 11; k++ {
+		auto := k < 8
 		rootA := filepath.Join(scratch, fmt.Sprintf("sa%d", k))
 		rootB := filepath.Join(scratch, fmt.Sprintf("sb%d", k))
-		fsA := genFS(r, rootA, false, faults, false)
-		fsB := genFS(r, rootB, false, faults, false)
+		opts := fsOpts{faults: faults, auto: auto, quiet: auto}
+		fsA := genFS(r, rootA, opts)
+		fsB := genFS(r, rootB, opts)
 		if k%2 == 1 && len(fsA.Dirs) > 0 {
 			// the new list shares a directory with the old one
-			fsB.Dirs = append(fsB.Dirs, fsA.Dirs[0])
+			fsB.add(fsA.Dirs[0])
 		}
 		fsA.materialise()
 		fsB.materialise()
-		cache, _ := cdi.NewCache(cdi.WithSpecDirs(fsA.dirList()...), cdi.WithAutoRefresh(true))
-		hist := []string{"cache created in automatic mode on another list of directories: " + fmt.Sprint(fsA.dirList())}
+		cache, _ := cdi.NewCache(cdi.WithSpecDirs(fsA.dirList()...), cdi.WithAutoRefresh(auto))
+		hist := []string{"cache created on another list of directories: " + fmt.Sprint(fsA.dirList())}
 		emit := func() {
-			o := settleQuiet(cache, fsB.dirList(), probes, 3*time.Second, fsB.missingDirs())
-			o.Auto = true
+			var o cacheObs
+			if auto {
+				o = settleQuiet(cache, fsB.dirList(), fsB.probeNames(), 3*time.Second, fsB.unwatchableDirs())
+			} else {
+				o = observeCache(cache, fsB.probeNames(), true)
+			}
+			o.Auto = auto
 			s.Add(hx.Case{Term: hx.C("Case01", fsB.term(), o.term()),
-				Desc: map[string]interface{}{"dirs": fsB.desc(), "auto_refresh": true, "history": append([]string{}, hist...),
-					"observed": map[string]interface{}{"devices": o.Devices, "error_keys": o.ErrKeys, "dir_error_keys": o.DirErrs, "refresh_error": o.RefErr}},
+				Desc:  map[string]interface{}{"dirs": fsB.desc(), "auto_refresh": auto, "history": append([]string{}, hist...), "observed": obsDesc(o)},
 				Class: "dirs-switch", Key: fsB.term() + fmt.Sprint(len(hist)), Nontrivial: true})
 		}
-		_ = settle(cache, fsA.dirList(), probes, 3*time.Second, fsA.missingDirs())
+		if auto {
+			_ = settle(cache, fsA.dirList(), fsA.probeNames(), 3*time.Second, fsA.unwatchableDirs())
+		} else {
+			_ = cache.Refresh()
+		}
 		_ = cache.Configure(cdi.WithSpecDirs(fsB.dirList()...))
 		hist = append(hist, "configure: these directories, mode untouched")
 		emit()
 		for st := 0; st < 2; st++ {
-			hist = append(hist, fsB.mutate(r, false, faults))
+			hist = append(hist, fsB.mutate(r, opts))
 			emit()
 		}
 		_ = cache.Configure(cdi.WithAutoRefresh(false))
 	}
+	// a configured directory which is a sub-directory of another configured one: skipped as a sub-directory there, scanned
+	// with its own priority
+	for k := 0; k < 4; k++ {
+		root := filepath.Join(scratch, fmt.Sprintf("n%d", k))
+		auto := k >= 2
+		opts := fsOpts{faults: faults, auto: auto}
+		outer := &absDir{Path: filepath.Join(root, "outer"), State: dirDir}
+		for _, e := range genDirEntries(r, "outer", opts) {
+			if e.Name != "sub" {
+				outer.Entries = append(outer.Entries, e)
+			}
+		}
+		outer.Entries = append(outer.Entries, absEntry{Name: "sub", Kind: entSub})
+		inner := &absDir{Path: filepath.Join(root, "outer", "sub"), State: dirDir, Entries: genDirEntries(r, "inner", opts)}
+		if len(inner.Entries) == 0 {
+			inner.Entries = []absEntry{*genEntryNamed(r, "inner", "a.json", entValid, opts)}
+		}
+		outer.materialise()
+		inner.materialise()
+		fs := &absFS{Dirs: []*absDir{outer, inner}}
+		if k%2 == 1 {
+			fs.Dirs = []*absDir{inner, outer}
+		}
+		cache, _ := cdi.NewCache(cdi.WithSpecDirs(fs.dirList()...), cdi.WithAutoRefresh(auto))
+		var o cacheObs
+		if auto {
+			o = settle(cache, fs.dirList(), fs.probeNames(), 3*time.Second, fs.unwatchableDirs())
+			_ = cache.Configure(cdi.WithAutoRefresh(false))
+		} else {
+			o = observeCache(cache, fs.probeNames(), true)
+		}
+		o.Auto = auto
+		s.Add(hx.Case{Term: hx.C("Case01", fs.term(), o.term()),
+			Desc:  map[string]interface{}{"dirs": fs.desc(), "auto_refresh": auto, "history": []string{}, "observed": obsDesc(o)},
+			Class: "nested-directories", Key: fs.term(), Nontrivial: true})
+	}
+	// same-priority conflicts of every size, every run: a directory in which 3 or 4 valid files define one qualified name,
+	// alone, configured twice, below / above a directory which defines the name once or twice; then the conflict shrinks
+	// file by file (3 -> 2 -> 1 definitions: the name must stay unresolved until one definition is left)
+	for k := 0; k < 10; k++ {
+		root := filepath.Join(scratch, fmt.Sprintf("x%d", k))
+		auto := k%5 == 4
+		opts := fsOpts{faults: faults, auto: auto}
+		const kind, dev = "vendor1.com/gpu", "dev1"
+		definers := func(tag string, n int) *absDir {
+			d := &absDir{Path: filepath.Join(root, tag), State: dirDir}
+			names := append(append([]string{}, specNames...), oddSpecNames[:6]...)
+			perm := r.Perm(len(names))
+			for i := 0; i < n; i++ {
+				name := names[perm[i]]
+				d.Entries = append(d.Entries, absEntry{Name: name, Kind: entValid, Spec: genSpecDefining(r, tag+"/"+name, kind, dev)})
+			}
+			// bystanders: other files, some of them sorting between the definers
+			for _, e := range genDirEntries(r, tag, opts) {
+				free := true
+				for _, x := range d.Entries {
+					if x.Name == e.Name {
+						free = false
+					}
+				}
+				if free {
+					d.Entries = append(d.Entries, e)
+				}
+			}
+			return d
+		}
+		m := 3 + k%2
+		x := definers("same", m)
+		fs := &absFS{}
+		switch k % 10 {
+		case 0, 1:
+			fs.Dirs = []*absDir{x}
+		case 2, 3:
+			fs.Dirs = []*absDir{x, x}
+		case 4:
+			fs.Dirs = []*absDir{definers("lower", 1), x}
+		case 5:
+			fs.Dirs = []*absDir{definers("lower", 2), x}
+		case 6:
+			fs.Dirs = []*absDir{x, definers("higher", 1)}
+		case 7:
+			fs.Dirs = []*absDir{x, definers("higher", 2)}
+		case 8:
+			fs.Dirs = []*absDir{x, definers("between", 1+r.Intn(2)), x}
+		default:
+			fs.Dirs = []*absDir{definers("lower", 1+r.Intn(2)), x, definers("higher", 0)}
+		}
+		fs.materialise()
+		cache, _ := cdi.NewCache(cdi.WithSpecDirs(fs.dirList()...), cdi.WithAutoRefresh(auto))
+		hist := []string{}
+		emit := func() {
+			var o cacheObs
+			if auto {
+				o = settle(cache, fs.dirList(), fs.probeNames(), 3*time.Second, fs.unwatchableDirs())
+			} else {
+				o = observeCache(cache, fs.probeNames(), true)
+			}
+			o.Auto = auto
+			s.Add(hx.Case{Term: hx.C("Case01", fs.term(), o.term()),
+				Desc:  map[string]interface{}{"dirs": fs.desc(), "auto_refresh": auto, "history": append([]string{}, hist...), "observed": obsDesc(o)},
+				Class: "same-priority-conflict", Key: fs.term(), Nontrivial: true})
+		}
+		emit()
+		// take the definers away one at a time, in a random order
+		for left := m; left > 1; left-- {
+			var idx []int
+			for i, e := range x.Entries {
+				if e.Kind == entValid && isSpecFileName(e.Name) && e.Spec.Kind == kind && len(e.Spec.Devices) > 0 && e.Spec.Devices[0].Name == dev {
+					idx = append(idx, i)
+				}
+			}
+			if len(idx) == 0 {
+				break
+			}
+			i := hx.Pick(r, idx)
+			name := x.Entries[i].Name
+			removeEntry(filepath.Join(x.Path, name))
+			x.Entries = append(x.Entries[:i:i], x.Entries[i+1:]...)
+			hist = append(hist, "remove same/"+name)
+			emit()
+		}
+		if auto {
+			_ = cache.Configure(cdi.WithAutoRefresh(false))
+		}
+	}
+	// faults repaired from outside the file: a Spec file which is a dangling link is repaired by its target appearing (the
+	// link itself is not touched), broken again by the target going away, and repaired again
+	for k := 0; k < 6; k++ {
+		root := filepath.Join(scratch, fmt.Sprintf("r%d", k))
+		auto := defectPendingLinkTargetUnwatched && k%3 == 2
+		opts := fsOpts{faults: faults, auto: auto}
+		fs := genFS(r, root, opts)
+		d := &absDir{Path: filepath.Join(root, "links"), State: dirDir, Entries: genDirEntries(r, "links", opts)}
+		name := hx.Pick(r, []string{"a.json", "d.yaml", "l.json", "0.yaml", "zz.json"})
+		var kept []absEntry
+		for _, e := range d.Entries {
+			if e.Name != name {
+				kept = append(kept, e)
+			}
+		}
+		// every run: entries one cannot read a Spec from (links to directories, a socket, a FIFO) sorting before a valid file
+		special := []absEntry{{Name: "00dl.json", Kind: entInvalid, Invalid: "linktodir"}, {Name: "01sock", Kind: entInvalid, Invalid: "socket"},
+			{Name: "02fifo", Kind: entInvalid, Invalid: "fifo"}, {Name: "03dl", Kind: entInvalid, Invalid: "linktodir"}, {Name: "04sock.yaml", Kind: entInvalid, Invalid: "socket"},
+			{Name: "zzz.yaml", Kind: entValid, Spec: genSpecDefining(r, "links/zzz.yaml", "vendor2.org/nic", "dev2")}}
+		d.Entries = append(append(special, kept...), absEntry{Name: name, Kind: entInvalid, Invalid: "dangling"})
+		fs.add(d)
+		if k%2 == 1 {
+			l := len(fs.Dirs) - 1
+			fs.Dirs[0], fs.Dirs[l] = fs.Dirs[l], fs.Dirs[0]
+			fs.Spell[0], fs.Spell[l] = fs.Spell[l], fs.Spell[0]
+		}
+		fs.materialise()
+		cache, _ := cdi.NewCache(cdi.WithSpecDirs(fs.dirList()...), cdi.WithAutoRefresh(auto))
+		hist := []string{}
+		emit := func() {
+			var o cacheObs
+			if auto {
+				o = settle(cache, fs.dirList(), fs.probeNames(), 3*time.Second, fs.unwatchableDirs())
+			} else {
+				o = observeCache(cache, fs.probeNames(), true)
+			}
+			o.Auto = auto
+			s.Add(hx.Case{Term: hx.C("Case01", fs.term(), o.term()),
+				Desc:  map[string]interface{}{"dirs": fs.desc(), "auto_refresh": auto, "history": append([]string{}, hist...), "observed": obsDesc(o)},
+				Class: "link-target-repair", Key: fs.term(), Nontrivial: true})
+		}
+		emit()
+		path := filepath.Join(d.Path, name)
+		for round := 0; round < 2; round++ {
+			e := &d.Entries[len(d.Entries)-1]
+			e.Kind, e.Invalid, e.ViaLink, e.LinkHow = entValid, "", true, 3
+			e.Spec = genValidSpec(r, fmt.Sprintf("links/%s#%d", name, round), false)
+			writeSpecFile(danglingTarget(path), e.Spec)
+			hist = append(hist, "the target of links/"+name+" appears")
+			emit()
+			if round == 0 {
+				e.Kind, e.Invalid, e.ViaLink, e.Spec = entInvalid, "dangling", false, nil
+				_ = os.Remove(danglingTarget(path))
+				hist = append(hist, "the target of links/"+name+" is removed")
+				emit()
+			}
+		}
+		if auto {
+			_ = cache.Configure(cdi.WithAutoRefresh(false))
+		}
+	}
+	// configured paths one cannot scan, of every kind, every run, in every position among good directories: links leading
+	// nowhere or in a circle, a socket, links to Spec files, paths below a file or below a dangling link, over-long names
+	for k := 0; faults && k < 6; k++ {
+		root := filepath.Join(scratch, fmt.Sprintf("b%d", k))
+		opts := fsOpts{faults: true}
+		mkGood := func(tag string) *absDir {
+			d := &absDir{Path: filepath.Join(root, tag), State: dirDir, Entries: genDirEntries(r, tag, opts)}
+			var kept []absEntry
+			for _, e := range d.Entries {
+				if e.Name != "g.json" {
+					kept = append(kept, e)
+				}
+			}
+			d.Entries = append(kept, absEntry{Name: "g.json", Kind: entValid, Spec: genSpecDefining(r, tag+"/g.json", "vendor1.com/gpu", "dev1")})
+			return d
+		}
+		fileAs := func(name string, e absEntry) *absDir {
+			e.Name = name
+			return &absDir{Path: filepath.Join(root, name), State: dirIsFile, File: &e}
+		}
+		bad := []*absDir{
+			fileAs("dangling.json", absEntry{Kind: entInvalid, Invalid: "dangling"}),
+			fileAs("dangling", absEntry{Kind: entInvalid, Invalid: "dangling"}),
+			fileAs("loop.yaml", absEntry{Kind: entInvalid, Invalid: "selflink"}),
+			fileAs("sock.json", absEntry{Kind: entInvalid, Invalid: "socket"}),
+			fileAs("toolong.json", absEntry{Kind: entInvalid, Invalid: "toolonglink"}),
+			fileAs("linked.json", absEntry{Kind: entValid, ViaLink: true, LinkHow: r.Intn(3), Spec: genSpecDefining(r, "linked.json", "vendor1.com/gpu", "dev1")}),
+			fileAs("linked", absEntry{Kind: entValid, ViaLink: true, Spec: genSpecDefining(r, "linked", "vendor1.com/gpu", "dev1")}),
+			{Path: filepath.Join(root, "f", "below"), State: dirUnscannable},
+			{Path: filepath.Join(root, "nowhere", "below"), State: dirMissing},                        // nowhere is a dangling link
+			{Path: filepath.Join(root, strings.Repeat("x", 300)), State: dirUnscannable, Unscan: "nametoolong"}, // never materialised: lstat fails with ENAMETOOLONG
+		}
+		g1, g2 := mkGood("good1"), mkGood("good2")
+		perm := r.Perm(len(bad))
+		pick := []*absDir{bad[perm[0]], bad[perm[1]], bad[perm[2]], bad[(k*2)%len(bad)], bad[(k*2+1)%len(bad)]}
+		fs := &absFS{}
+		switch k % 3 {
+		case 0:
+			fs.Dirs = []*absDir{pick[0], pick[3], g1, pick[1], g2, pick[2], pick[4]}
+		case 1:
+			fs.Dirs = []*absDir{g1, pick[0], pick[3], pick[4], pick[1], g2}
+		default:
+			fs.Dirs = []*absDir{pick[3], pick[0], pick[1], pick[2], pick[4], g1, g2, g1}
+		}
+		_ = os.MkdirAll(root, 0o755)
+		_ = os.Symlink(filepath.Join(root, "does-not-exist"), filepath.Join(root, "nowhere"))
+		seen := map[*absDir]bool{}
+		for _, d := range fs.Dirs {
+			if !seen[d] && d.State != dirMissing && d.Unscan != "nametoolong" {
+				d.materialise()
+			}
+			seen[d] = true
+		}
+		cache, _ := cdi.NewCache(cdi.WithSpecDirs(fs.dirList()...), cdi.WithAutoRefresh(false))
+		o0 := observeCache(cache, fs.probeNames(), false)
+		o := observeCache(cache, fs.probeNames(), true)
+		o0.RefErr = o.RefErr
+		for i, ob := range []cacheObs{o0, o} {
+			s.Add(hx.Case{Term: hx.C("Case01", fs.term(), ob.term()),
+				Desc:  map[string]interface{}{"dirs": fs.desc(), "auto_refresh": false, "history": []string{}, "refreshed_explicitly": i == 1, "observed": obsDesc(ob)},
+				Class: "bad-directory-paths", Key: fs.term() + fmt.Sprint(i), Nontrivial: true})
+		}
+	}
 	for li := 0; li < layouts; li++ {
 		root := filepath.Join(scratch, fmt.Sprintf("l%d", li))
 		auto := li%3 == 2
-		fs := genFS(r, root, false, faults, faults && !auto)
+		capdrop := capsOK && !auto && li%4 == 1
+		variant := li % len(cacheCreators)
+		opts := fsOpts{faults: faults, dirFaults: faults, perm: capdrop, auto: auto, relative: true}
+		fs := genFS(r, root, opts)
 		fs.materialise()
+		// with permission faults in the population everything the cache does happens without the DAC capabilities
+		run := func(f func()) {
+			if capdrop {
+				withoutDACCaps(f)
+			} else {
+				f()
+			}
+		}
 		var cache *cdi.Cache
-		panicked, msg := hx.Guard(func() {
-			cache, _ = cdi.NewCache(cdi.WithSpecDirs(fs.dirList()...), cdi.WithAutoRefresh(auto))
+		obsDefaultAPI = variant == 5
+		var panicked bool
+		var msg string
+		run(func() {
+			panicked, msg = hx.Guard(func() { cache = makeCache(variant, fs.dirList(), auto, elsewhere) })
 		})
 		if panicked {
-			return nil, fmt.Errorf("NewCache panicked: %s", msg)
+			return nil, fmt.Errorf("creating the cache panicked: %s", msg)
 		}
 		steps := r.Intn(5)
 		history := []string{}
-		for st := 0; st <= steps; st++ {
-			if st > 0 {
-				history = append(history, fs.mutate(r, false, faults))
-			}
-			if auto && st > 0 && r.Chance(0.15) {
-				// from here on the same cache runs in manual mode: whatever the watch reported must be forgotten
-				_ = cache.Configure(cdi.WithAutoRefresh(false))
-				auto = false
-				history = append(history, "configure: automatic refresh off")
-			}
-			var o cacheObs
-			if auto {
-				o = settle(cache, fs.dirList(), probes, 3*time.Second, fs.missingDirs())
-				autoTotal++
-				autoConverged++
-			} else {
-				o = observeCache(cache, probes, true)
-			}
+		emit := func(o cacheObs, st int, history []string, note string) {
 			o.Auto = auto
 			class := "manual"
 			if auto {
@@ -151,24 +469,72 @@ func genCacheSuite(r *hx.R, tier, scratch, prop string) (*hx.Suite, error) {
 			if faults {
 				class = "faults-" + class
 			}
+			if capdrop {
+				class += "+permissions"
+			}
 			if st > 0 {
 				class += "+history"
 			}
-			desc := map[string]interface{}{"dirs": fs.desc(), "auto_refresh": auto, "history": append([]string{}, history...),
-				"observed": map[string]interface{}{"devices": o.Devices, "vendors": o.Vendors, "classes": o.Classes, "error_keys": o.ErrKeys, "refresh_error": o.RefErr, "panic": o.Panic}}
+			desc := map[string]interface{}{"dirs": fs.desc(), "auto_refresh": auto, "history": append([]string{}, history...), "cache": cacheCreators[variant], "observed": obsDesc(o)}
+			if note != "" {
+				desc["note"] = note
+			}
+			if capdrop {
+				desc["permissions"] = "the cache is created and used by a thread without CAP_DAC_OVERRIDE and CAP_DAC_READ_SEARCH"
+			}
 			if o.Panic != "" {
 				// a panic is reported as an observation nothing in the model matches
 				o.Devices = append(o.Devices, "PANIC: "+o.Panic)
 			}
 			s.Add(hx.Case{Term: hx.C("Case01", fs.term(), o.term()), Desc: desc, Class: class,
-				Key: fs.term(), Nontrivial: nontrivialFS(fs, faults)})
+				Key: fs.term() + note, Nontrivial: nontrivialFS(fs, faults)})
+		}
+		for st := 0; st <= steps; st++ {
+			if st > 0 {
+				history = append(history, fs.mutate(r, opts))
+			}
+			if auto && st > 0 && r.Chance(0.15) {
+				// from here on the same cache runs in manual mode: whatever the watch reported must be forgotten
+				_ = cache.Configure(cdi.WithAutoRefresh(false))
+				auto = false
+				opts.auto = false
+				history = append(history, "configure: automatic refresh off")
+			}
+			probes := fs.probeNames()
+			var o cacheObs
+			switch {
+			case auto && st == 0 && li%2 == 0:
+				// what the cache answers before anybody asked it to refresh
+				o = settleQuiet(cache, fs.dirList(), probes, 3*time.Second, fs.unwatchableDirs())
+				autoTotal++
+			case auto:
+				o = settle(cache, fs.dirList(), probes, 3*time.Second, fs.unwatchableDirs())
+				autoTotal++
+			default:
+				var o0 cacheObs
+				run(func() {
+					if st == 0 {
+						o0 = observeCache(cache, probes, false)
+					}
+					o = observeCache(cache, probes, true)
+				})
+				if st == 0 {
+					// a new cache answers from its directories before the first Refresh(): reported only when it differs
+					o0.RefErr = o.RefErr
+					if o0.key() != o.key() || fmt.Sprint(o0.DirErrs, o0.AllErrs) != fmt.Sprint(o.DirErrs, o.AllErrs) {
+						emit(o0, st, history, "observed before the first Refresh()")
+					}
+				}
+			}
+			emit(o, st, history, "")
 		}
 		// stop the watcher of an auto cache
-		if auto {
+		if auto || variant == 5 {
 			_ = cache.Configure(cdi.WithAutoRefresh(false))
 		}
+		obsDefaultAPI = false
 	}
-	s.Extra = map[string]interface{}{"x_auto_refresh_observations": autoTotal}
+	s.Extra = map[string]interface{}{"x_auto_refresh_observations": autoTotal, "x_permission_faults_available": capsOK, "x_settle_deadlines_hit": settleDeadlines}
 	return s, nil
 }
 
@@ -189,8 +555,11 @@ func nontrivialFS(fs *absFS, faults bool) bool {
 		if d.State == dirIsFile {
 			list = []absEntry{*d.File}
 		}
+		if d.State == dirUnscannable {
+			list = nil
+		}
 		for _, e := range list {
-			if filepath.Ext(e.Name) != ".json" && filepath.Ext(e.Name) != ".yaml" {
+			if !isSpecFileName(e.Name) {
 				continue
 			}
 			switch e.Kind {
